@@ -43,16 +43,19 @@ def owners : List Owner := [
   ⟨N.«headerfs.headerStore.resetInterruptedInit», .init⟩,   -- only called by the two constructors
   ⟨N.«headerfs.filterHeaderStore.maybeResetHeaderState», .init⟩]
 
+/-- Helpers that are only called with a lock held, where the extractor cannot decide it (`Gen.AccessTable.inferredHolds`
+covers the decidable case: unexported, never used as a value, every call site inside a lock region).  The entries below
+have a call site outside any region - in a constructor, before the store is shared - which `C18_caller_holds` accepts
+only because the caller is of class `init`. -/
 def callerHolds : List CallerHolds := [
-  ⟨N.«lru.Cache.evict», N.«lru.Cache.mtx», true⟩,
-  ⟨N.«headerfs.headerFile.truncateHeaders», N.«headerfs.headerStore.mtx», true⟩,
-  ⟨N.«headerfs.headerStore.appendRaw», N.«headerfs.headerStore.mtx», true⟩,
-  -- blockLocatorFromHash reads headers through readHeader (no lock of its own since the recursive-read-lock repair);
-  -- both callers, LatestBlockLocator and BlockLocatorFromHash, hold the read lock
-  ⟨N.«headerfs.blockHeaderStore.blockLocatorFromHash», N.«headerfs.headerStore.mtx», false⟩,
-  ⟨N.«headerfs.blockHeaderStore.readHeader», N.«headerfs.headerStore.mtx», false⟩,
-  ⟨N.«headerfs.filterHeaderStore.readHeader», N.«headerfs.headerStore.mtx», false⟩,
-  ⟨N.«headerfs.headerStore.readRaw», N.«headerfs.headerStore.mtx», false⟩]
+  ⟨N.«headerfs.headerFile.truncateHeaders», N.«headerfs.headerStore.mtx», true⟩,   -- also from New*HeaderStore (trim on open)
+  ⟨N.«headerfs.blockHeaderStore.readHeader», N.«headerfs.headerStore.mtx», false⟩,  -- also from NewBlockHeaderStore
+  ⟨N.«headerfs.filterHeaderStore.readHeader», N.«headerfs.headerStore.mtx», false⟩, -- also from NewFilterHeaderStore
+  ⟨N.«headerfs.headerStore.readRaw», N.«headerfs.headerStore.mtx», false⟩]          -- only from the two readHeader above
+
+/-- reviewed entries, then what the extractor inferred -/
+def allCallerHolds : List CallerHolds :=
+  callerHolds ++ inferredHolds.map (fun h => ⟨h.fn, h.lock, h.excl⟩)
 
 /-- `sync.NewCond(&m)`: `c.L` is `m` -/
 def lockAlias : List (Nat × Nat) := [
@@ -62,19 +65,14 @@ def lockAlias : List (Nat × Nat) := [
 /-- Examined; real unsynchronised pairs (see known-findings.txt and the report). -/
 def knownRacy : List Racy := [
   -- lru.Cache.RangeFILO / RangeFIFO walk the recency list without the mutex (race detector: confirmed)
-  ⟨N.«lru.Cache.ll», N.«lru.Cache.RangeFILO», N.«lru.Cache.Put»⟩,
-  ⟨N.«lru.Cache.ll», N.«lru.Cache.RangeFILO», N.«lru.Cache.Get»⟩,
-  ⟨N.«lru.Cache.ll», N.«lru.Cache.RangeFILO», N.«lru.Cache.LoadAndDelete»⟩,
-  ⟨N.«lru.Cache.ll», N.«lru.Cache.RangeFILO», N.«lru.Cache.evict»⟩,
-  ⟨N.«lru.Cache.ll», N.«lru.Cache.RangeFIFO», N.«lru.Cache.Put»⟩,
-  ⟨N.«lru.Cache.ll», N.«lru.Cache.RangeFIFO», N.«lru.Cache.Get»⟩,
-  ⟨N.«lru.Cache.ll», N.«lru.Cache.RangeFIFO», N.«lru.Cache.LoadAndDelete»⟩,
-  ⟨N.«lru.Cache.ll», N.«lru.Cache.RangeFIFO», N.«lru.Cache.evict»⟩,
+  -- (the other side is whatever mutates the list under the mutex: Put, Get, LoadAndDelete, evict and their helpers)
+  ⟨N.«lru.Cache.ll», N.«lru.Cache.RangeFILO», N.«lru.Cache.Put», true⟩,
+  ⟨N.«lru.Cache.ll», N.«lru.Cache.RangeFIFO», N.«lru.Cache.Put», true⟩,
   -- (UtxoScanner.Stop used to drain pq without cv.L while an Enqueue that had passed its quit check could still be
   --  pushing: repaired in /repo d581b3e, the pair now shares cv.L)
   -- FetchHeaderAncestors reads h.file without the store mutex; truncateHeaders re-assigns it (windows branch only)
-  ⟨N.«headerfs.headerFile.file», N.«headerfs.headerFile.truncateHeaders», N.«headerfs.blockHeaderStore.readHeaderRange»⟩,
-  ⟨N.«headerfs.headerFile.file», N.«headerfs.headerFile.truncateHeaders», N.«headerfs.filterHeaderStore.readHeaderRange»⟩]
+  ⟨N.«headerfs.headerFile.file», N.«headerfs.headerFile.truncateHeaders», N.«headerfs.blockHeaderStore.readHeaderRange», false⟩,
+  ⟨N.«headerfs.headerFile.file», N.«headerfs.headerFile.truncateHeaders», N.«headerfs.filterHeaderStore.readHeaderRange», false⟩]
 
 /-- The per-response callbacks handed to the work manager, as reviewed (the extracted list must equal this one:
 `C18_callbacks_reviewed`).  `true` = the query consists of several requests, so the callback runs on several worker
@@ -95,6 +93,6 @@ def ordered : List Ordered := [
   ⟨N.«cfiltersQuery.headerIndex», N.«cfiltersQuery.handleResponse», N.«ChainService.GetCFilter», rVerdict⟩,
   ⟨N.«ChainService.GetBlock.foundBlock», N.«ChainService.GetBlock$handleResp», N.«ChainService.GetBlock», rVerdict⟩]
 
-def tables : Tables := ⟨owners, callerHolds, lockAlias, knownRacy, ordered⟩
+def tables : Tables := ⟨owners, allCallerHolds, lockAlias, knownRacy, ordered⟩
 
 end Neutrino.Lockset
